@@ -2,7 +2,6 @@
 //! A counting global allocator (per-thread counters, see main.rs) measures peak and total allocation of each call.
 //! TLC (spec/Resource) names the length fields, the repeated structures and the streams to measure.
 use std::io::{Read, Write};
-use std::time::Instant;
 
 use pgp::armor::{Dearmor, DearmorOptions};
 use pgp::composed::{DecryptionOptions, Deserializable, DetachedSignature, Message, MessageBuilder, PlainSessionKey, SignedPublicKey, SignedSecretKey, TheRing};
